@@ -144,6 +144,7 @@ func (x *runner) corpus() {
 	}
 	x.runPipe(pipeCase{Seed: 7, BS: 5, Acked: false, AB: 117, BA: 53, CloserA: true}, "corpus")
 	x.runPipe(pipeCase{Seed: 8, BS: 0, Acked: true, AB: 5000, BA: 3000, CloserA: false}, "corpus")
+	x.runPipe(pipeCase{Seed: 9, BS: 4, Acked: true, AB: 40, BA: 33, CloserA: true, SeqAB: 65534, SeqBA: 65535}, "corpus")
 }
 
 func (x *runner) generated() {
